@@ -290,7 +290,7 @@ def template_cond(draw, ctx: Ctx, force=None):
     T += ["same_var_or", "not_over_and", "not_over_or", "and_of_ors_samevar"] if cfg.allow_not else \
         ["same_var_or", "and_of_ors_samevar"]
     if n >= 2:
-        T += list(cfg.extra_templates)
+        T += [t_ for t_ in cfg.extra_templates if n >= 3 or not t_.startswith("indep_")]
     t = force or draw(st.sampled_from(T))
     f = lambda: draw(st.sampled_from(cfg.and_forms))
     if t == "free":
@@ -419,6 +419,9 @@ def query_case(draw, cfg: Cfg):
             "split_top": draw(st.booleans()), "quant": cfg.quant}
     if chance(draw, 1, 4):
         case["share_terms"] = True      # equal mapping terms are ONE expression object (f = x.a used several times)
+    # an evaluation abandoned after k results (the consumer stops, the iterator is closed) precedes the evaluations
+    # that are compared: what a query returns must not depend on it (honoured by qcheck.run_query and by C01)
+    case["abandon_first"] = draw(st.sampled_from([0, 0, 0, 1, 2]))
     # selection
     if cfg.select == "first" or nvars == 1 and not cfg.value_terms_in_select:
         sel_vars = [0] if cfg.select == "first" else [0]
